@@ -4,6 +4,7 @@ import (
 	"flag"
 	"fmt"
 	"os"
+	"regexp"
 	"sort"
 	"strconv"
 	"strings"
@@ -215,6 +216,55 @@ func init() {
 					t := v.Units[0].Text()
 					fmt.Println("  dec:", v.DecString(), " hasURLValues:", strings.Contains(t, "url.Values"), " importsURL:", strings.Contains(t, "\"net/url\""))
 				}
+			}
+		}
+	}
+}
+
+func init() {
+	props["PROBE3"] = func(c *Ctx) {
+		c.R.Rule("P", "probe", 0)
+		keyRe := regexp.MustCompile(`(raw|out|variantMap|childRaw|mapRaw)\[`)
+		for _, ri := range c.goUnitRoots() {
+			if ri.Pkg != pkgHTTP {
+				continue
+			}
+			ex := c.Explore(ri.Fn, 1, 6000)
+			enc, dec := map[string]bool{}, map[string]bool{}
+			for _, v := range ex.Variants {
+				for _, u := range v.Units {
+					dir := ""
+					for _, l := range u.Lines {
+						t := lineText(l.Segs)
+						if strings.HasPrefix(t, "func (x *") || strings.HasPrefix(t, "func (x ") {
+							if strings.Contains(t, "MarshalJSON()") {
+								dir = "enc"
+							} else if strings.Contains(t, "UnmarshalJSON(") {
+								dir = "dec"
+							} else {
+								dir = ""
+							}
+						}
+						if dir == "" || (!keyRe.MatchString(t) && !strings.Contains(t, "delete(") && !strings.Contains(t, "case \"")) {
+							continue
+						}
+						for _, sg := range l.Segs {
+							if sg.Hole != nil {
+								k := descRootRe.ReplaceAllString(eraseIters(sg.Hole.Key), "X.Desc.")
+								if dir == "enc" {
+									enc[k] = true
+								} else {
+									dec[k] = true
+								}
+							}
+						}
+					}
+				}
+			}
+			if len(enc)+len(dec) > 0 {
+				fmt.Println("UNIT", ri.Suffix)
+				fmt.Println("   enc:", sortedKeys(enc))
+				fmt.Println("   dec:", sortedKeys(dec))
 			}
 		}
 	}
